@@ -165,6 +165,9 @@ def extra_instances():
     add(Mol([Token(["OC", _imp("$", w=0)]), S("[$]", ["[$]CC[$]"], ["[$][H]"], "[$]", g(30)),
              Token([_imp("$"), "CO", _imp("$", w=0)]), S("[$]", ["[$]CS[$]"], ["[$]F"], "[$]", g(40)),
              Token([_imp("$"), "N"])], name="implicit-connector-dollar"))
+    # ... a molecule that STARTS with an object, then a connector written without descriptors, then another object
+    add(Mol([S("[]", ["[<]CC[>]"], ["[>][H]"], "[<]", g(40)), Token([_imp("<"), "CO", _imp(">", w=0)]),
+             S("[>]", ["[<]CS[>]"], [], "[<]", g(50)), Token([_imp("<"), "F"])], name="object-first-implicit-connector"))
     # ... next to terminals that are written with a bond order and / or an id: the inserted descriptor is the terminal's, bond characters and id included
     add(Mol([Token(["N", _imp("$", w=0, pre="=")]), S("=[$]", ["[$]=CC[$]"], ["[$][H]", "[$]=O"], "[]", g(60))], name="implicit-prefix-double-bond-terminal"))
     add(Mol([Token(["OC", _imp(">", id=1, w=0)]), S("[>1]", ["[<1]CC[>1]"], [], "[<1]", g(40)),
